@@ -17,6 +17,12 @@ package grpc
 //	[7,t,how]         context of RPC t: 1 cancelled, 2 deadline exceeded
 //	[8,t,e]           cs.finish(io.EOF if e==0 else a status error)
 //	[9,t]             cs.withRetry(op returning an error, cs.commitAttemptLocked)
+//	[10,t]            go cs.withRetry(op failing once with ABORTED - the one status the method's
+//	                  retry policy retries -, cs.commitAttemptLocked), then 2 ms of virtual time
+//	                  for the retry backoff (0.8-1.2 ms): retryLocked finishes the attempt, makes
+//	                  a new one and replays op 0 (getTransport; newStream) on it, so the RPC is
+//	                  parked in pick again and [5,t,..,ns] scripts the retry attempt's pick and
+//	                  NewStream outcome
 //
 //	obs [n, (token, errflag) x n Done calls made during the op,
 //	     per RPC: state, generation of the picker of its latest Pick call, Pick calls in this
@@ -26,6 +32,7 @@ package grpc
 // The clientStream / ClientConn are synthetic (only the fields these functions read); the
 // transport is a fake ClientTransport whose NewStream always fails, so a successful stream
 // creation is represented by not calling newStream (cs.attempt = a, transportStream nil).
+// Retries are enabled (MethodConfig.RetryPolicy: ABORTED only, MaxAttempts 2^30, backoff 1 ms).
 
 import (
 	"context"
@@ -39,6 +46,7 @@ import (
 	"google.golang.org/grpc/balancer"
 	"google.golang.org/grpc/codes"
 	"google.golang.org/grpc/connectivity"
+	iserviceconfig "google.golang.org/grpc/internal/serviceconfig"
 	"google.golang.org/grpc/internal/transport"
 	"google.golang.org/grpc/peer"
 	"google.golang.org/grpc/stats"
@@ -141,7 +149,8 @@ func vPickerExecIn(cfg []int64, ops [][]int64) ([][]int64, bool, []string) {
 	nth, nsc := int(cfg[0]), int(cfg[1])
 	pw := newPickerWrapper()
 	cc := &ClientConn{ctx: context.Background(), pickerWrapper: pw}
-	cc.dopts.disableRetry = true
+	vPickerRP := &iserviceconfig.RetryPolicy{MaxAttempts: 1 << 30, InitialBackoff: time.Millisecond, MaxBackoff: time.Millisecond,
+		BackoffMultiplier: 1, RetryableStatusCodes: map[codes.Code]bool{codes.Aborted: true}}
 	gen := int64(0)
 	closed := false
 
@@ -211,7 +220,7 @@ func vPickerExecIn(cfg []int64, ops [][]int64) ([][]int64, bool, []string) {
 				cs := &clientStream{
 					callHdr:      &transport.CallHdr{Method: "/verif.S/M"},
 					ctx:          th.ctx,
-					methodConfig: &MethodConfig{},
+					methodConfig: &MethodConfig{RetryPolicy: vPickerRP},
 					callInfo:     &callInfo{failFast: ff, maxRetryRPCBufferSize: 1 << 20},
 					cc:           cc,
 					desc:         unaryStreamDesc,
@@ -354,6 +363,39 @@ func vPickerExecIn(cfg []int64, ops [][]int64) ([][]int64, bool, []string) {
 				th.cs.withRetry(func(*csAttempt) error {
 					return status.Error(codes.Unavailable, "verif: stream op failed")
 				}, th.cs.commitAttemptLocked)
+			case op[0] == 10 && len(op) == 2:
+				th := get(op[1])
+				if th == nil || state(th) != 3 {
+					break
+				}
+				cs := th.cs
+				cs.mu.Lock()
+				committed, first := cs.committed, cs.attempt
+				cs.mu.Unlock()
+				if committed {
+					break
+				}
+				th.mu.Lock()
+				th.ended, th.created = false, false
+				th.mu.Unlock()
+				nRetry++
+				go func() {
+					err := cs.withRetry(func(a *csAttempt) error {
+						if a == first {
+							return status.Error(codes.Aborted, "verif: retryable stream op failure")
+						}
+						return nil
+					}, cs.commitAttemptLocked)
+					th.mu.Lock()
+					th.ended = true
+					if err == nil {
+						th.created = true
+					} else {
+						th.code = int64(status.Code(err))
+					}
+					th.mu.Unlock()
+				}()
+				time.Sleep(2 * time.Millisecond)
 			}
 		}
 		synctest.Wait()
@@ -434,6 +476,15 @@ func vPickerGen(r *vRand, tier string, idx int) ([]int64, [][]int64) {
 		// scripted: the known finding (foreign SubConn type with a Done callback)
 		ops = [][]int64{{2}, {1, 0, 0}, {5, 0, 4, 0, 1, 0}, {2}, {5, 0, 3, 0, 1, 0}, {7, 0, 2}}
 		return []int64{2, 1}, ops
+	case 3:
+		// scripted: policy retries of a created stream: the retry attempt's NewStream fails
+		// (transparent retry / finally), its SubConn is not READY, the context ends before the retry
+		ops = [][]int64{
+			{6, 0, 1}, {6, 1, 1}, {1, 0, 0}, {2}, {5, 0, 3, 0, 1, 0}, {10, 0}, {5, 0, 3, 1, 1, 2}, {5, 0, 3, 0, 1, 0}, {10, 0}, {8, 0, 0},
+			{1, 1, 1}, {5, 1, 3, 0, 1, 0}, {10, 1}, {6, 1, 0}, {5, 1, 3, 1, 1, 0}, {2}, {5, 1, 3, 0, 1, 1},
+			{1, 2, 0}, {5, 2, 3, 0, 0, 0}, {7, 2, 1}, {10, 2}, {1, 3, 0}, {5, 3, 3, 0, 1, 0}, {10, 3}, {5, 3, 3, 0, 1, 2}, {5, 3, 1, 10, 0, 0},
+		}
+		return []int64{4, 2}, ops
 	}
 	foreign := idx%10 == 5
 	n := 30 + r.Intn(60)
@@ -498,18 +549,27 @@ func vPickerGen(r *vRand, tier string, idx int) ([]int64, [][]int64) {
 			ops = append(ops, []int64{6, a, int64(vB(v))})
 		case c < 85:
 			ops = append(ops, []int64{7, r.I64n(nth), r.PickI64(1, 2)})
-		case c < 94:
+		case c < 91:
 			t := r.I64n(nth)
 			if len(created) > 0 && r.Chance(90) {
 				t = created[r.Intn(len(created))]
 			}
 			ops = append(ops, []int64{8, t, int64(r.Intn(2))})
-		default:
+		case c < 94:
 			t := r.I64n(nth)
 			if len(created) > 0 && r.Chance(90) {
 				t = created[r.Intn(len(created))]
 			}
 			ops = append(ops, []int64{9, t})
+		default:
+			t := r.I64n(nth)
+			if len(created) > 0 && r.Chance(90) {
+				k := r.Intn(len(created))
+				t = created[k]
+				created = drop(created, k)
+				alive = append(alive, t)
+			}
+			ops = append(ops, []int64{10, t})
 		}
 	}
 	return []int64{nth, nsc}, ops
